@@ -165,8 +165,8 @@ func (r *Router) handleHTTPRequest(ctx *Context) {
 		ctx.Set(CTXCurrentRouteName, route.name)
 		ctx.Set(CTXCurrentRoutePath, path)
 
-		// append main handler to last
-		handlers = append(route.handlers, route.handler)
+		// route middleware, the main handler is appended to last below
+		handlers = route.handlers
 	} else if len(allowed) > 0 { // method not allowed
 		if len(r.noAllowed) == 0 {
 			r.noAllowed = HandlersChain{internal405Handler}
@@ -183,12 +183,18 @@ func (r *Router) handleHTTPRequest(ctx *Context) {
 		handlers = r.noRoute
 	}
 
-	// has global middleware handlers
-	if len(r.handlers) > 0 {
-		handlers = append(r.handlers, handlers...)
+	// build the chain in a new slice: r.handlers and route.handlers are shared by all in-flight
+	// requests, appending to them in place would write into their backing arrays.
+	chain := make(HandlersChain, 0, len(r.handlers)+len(handlers)+1)
+	// global middleware handlers at first
+	chain = append(chain, r.handlers...)
+	chain = append(chain, handlers...)
+	if route != nil {
+		// append main handler to last
+		chain = append(chain, route.handler)
 	}
 
-	ctx.SetHandlers(handlers)
+	ctx.SetHandlers(chain)
 	ctx.Next() // handle processing
 
 	// has errors and has error handler
